@@ -17,6 +17,8 @@ def key_fn(case, obs, verdict):
         return "grpc-assert/response:" + what
     if f[0] == "grpc":
         return "engine-grpc:" + what
+    if f[0] == "gcall":
+        return "engine-grpc-call:" + what
     if f[0] == "gscn":
         return "engine-grpc-scenario:" + what
     if f[0] == "eng":
@@ -38,7 +40,9 @@ def run(ctx):
               "redirects followed per chain and never ends a chain itself); real grpc/scenario provider + gun under the real engine against a "
               "scripted grpc target (any status code per call, target going away mid-call, unknown method, unfit payload, failing template, "
               "assert/response); runs whose samples go through the real phout aggregator (recycled sample objects) and are read back from its file; "
-              "tunnel endpoints rejecting the CONNECT with a body they never finish. non-trivial: "
+              "tunnel endpoints rejecting the CONNECT with a body they never finish; real grpc/json provider + grpc gun with a configured timeout "
+              "(300-1500 ms) under the real engine against a scripted grpc target that accepts calls and stays silent for ever / until after the timeout "
+              "(must be given up within timeout + 3 s and reported as 504), mixed with any status at once or after a delay, unknown method, unfit payload, 1-3 instances. non-trivial: "
               "var/header chains containing substr with a non-empty value; assert cases with at least one condition; xpath "
               "cases whose expression is not a node set; every jsonpath case; engine cases with >1 step or a scenario; "
               "distinct = distinct case lines. Library outcomes (xpath value kind, json/jsonpath success) are inputs of the "
@@ -55,7 +59,7 @@ def run(ctx):
         # Gen/RedirClient_bridge.v: every net/http Client literal of the gun packages leaves CheckRedirect to the default
         bridge_files=["Gen/GoFnMp_bridge.v", "Gen/LockFlow_bridge.v", "Gen/BodySinks_bridge.v", "Properties/C19_wire.v",
                       "Gen/RedirClient_bridge.v", "Properties/C19_redirect.v", "Properties/C19_grpcscn.v",
-                      "Gen/SampleAcquire_bridge.v", "Properties/C19_recycle.v"],
+                      "Gen/SampleAcquire_bridge.v", "Properties/C19_recycle.v", "Properties/C19_grpctime.v"],
         trusted=[
             "extraction: ExtrOcamlBasic only; OCaml driver ocaml/C19/main.ml (incl. its copy of str.ParseStringFunc for modifier text) + ocaml/common/conv.ml",
             "correspondence harness harness/cmd/hC19 (real postprocessors under recover; scripted TCP target; real config decoder, "
